@@ -554,6 +554,10 @@ class OptionsParser:
                 handler(self, option, value)
             else:
                 values = cast(List[str], self.options.setdefault(option, []))
+
+                if not isinstance(values, list):
+                    raise ValueError(f'Conflicting values for option {option}')
+
                 values.append(value)
         else:
             self.options[option] = True
